@@ -22,7 +22,7 @@ package main
 //   op's m when its parents are graph[m]'s, else to 999999.
 //
 // Oracle classes: forward-only, tag-clobbered, legal-update-lost (frame: a legal update must happen whatever
-// happens to the other refs), rejection-not-reported, log-untrue, ff-not-exact.
+// happens to the other refs), rejection-not-reported, log-untrue, ff-not-exact, pull-branch-not-created.
 
 import (
 	"bytes"
@@ -496,6 +496,23 @@ func genC10(ctx *Ctx) []Case {
 			}
 			c.LRefs = append(c.LRefs, [2]interface{}{"heads/keep", 1})
 			return c
+		}
+		// always-run witnesses: "fetch first, then the first pull of that branch" - the remote-tracking ref is
+		// already there (up to date / behind the remote), heads/b is not; the branch name then resolves to the
+		// remote-tracking ref, and the pull must still create heads/b
+		for _, tracked := range []int{2, 1} {
+			for mode := 0; mode < 3; mode++ {
+				c := c10NewCase(0)
+				c.Kind = 3
+				c.Mode = mode
+				c.Branch = "b"
+				c.RRefs = [][2]interface{}{{"heads/b", 2}}
+				c.LRefs = [][2]interface{}{{"remotes/origin/b", tracked}, {"heads/keep", 1}}
+				c.Specs = []c10Spec{{false, false, "heads/b", "remotes/origin/b"}}
+				c.addMerge(2, 2)
+				c.closeHave()
+				add("pull-after-fetch", c)
+			}
 		}
 		// always-run witnesses: the fast-forwardable ref sorts first, the diverged one second (and the reverse)
 		for _, ord := range [][]int{{0, 1}, {1, 0}, {0, 2, 1}} {
@@ -1312,6 +1329,32 @@ func runC10(ctx *Ctx, t *xt.T) (*xt.T, Verdict) {
 		}
 		if expectRej > 0 && nrej == 0 {
 			return obs, Fail("rejection-not-reported", "push: %d updates refused but not reported: %s", expectRej, out)
+		}
+	}
+	// a successful pull into a branch that did not exist creates it: whenever exactly one of the pull's
+	// refspec destinations holds a commit afterwards, heads/BRANCH exists and holds that commit - also when the
+	// remote-tracking ref was already there (an earlier fetch, or an earlier pull interrupted before its last write)
+	if c.Kind == 3 && outcome == 0 {
+		bn := "heads/" + c.Branch
+		if _, existed := lBefore[bn]; !existed {
+			heads := []int{}
+			plain := true // every refspec is exact and none fetches into the pulled branch itself
+			for _, sp := range c.Specs {
+				if sp.Glob || sp.Dst == bn {
+					plain = false
+				} else if a, ok := lAfter[sp.Dst]; ok {
+					heads = append(heads, a.Val)
+				}
+			}
+			if plain && len(heads) == 1 {
+				if a, ok := lAfter[bn]; !ok || a.Val != heads[0] {
+					got := -1
+					if ok {
+						got = a.Val
+					}
+					return obs, Fail("pull-branch-not-created", "pull %s reported success, %s holds c%d, but heads/%s holds %d (-1 = does not exist): %s", c.Branch, c.Specs[0].Dst, heads[0], c.Branch, got, out)
+				}
+			}
 		}
 	}
 	if c.Kind == 2 && outcome == 0 {
